@@ -414,17 +414,26 @@ func checkC01(c *Ctx) {
 func linkRecord(c *Ctx, prop string, sn string, maxFrags int) (traceItem, int) {
 	var perr error
 	var printed []byte
+	pmsg := ""
 	frags, linked, ok := captureLink(func() {
-		f, err := decorator.Parse(sn)
-		perr = err
-		if err == nil {
-			var buf bytes.Buffer
-			if decorator.Fprint(&buf, f) == nil {
-				printed = buf.Bytes()
+		pmsg = guard(func() {
+			f, err := decorator.Parse(sn)
+			perr = err
+			if err == nil {
+				var buf bytes.Buffer
+				if decorator.Fprint(&buf, f) == nil {
+					printed = buf.Bytes()
+				}
 			}
-		}
+		})
 	})
-	if !ok || perr != nil || len(frags) > maxFrags {
+	if pmsg != "" && (prop == "C01" || prop == "C03") {
+		// the library panics on a parseable snippet: no round trip, no tokens
+		c.Eval("snippet|"+sn, true)
+		c.Fail(Finding{Sig: map[string]string{"C01": "roundtrip-fails", "C03": "print-fails"}[prop], Input: "snippet|" + shortHash(sn), What: "snippet: " + pmsg + "\n" + truncate(sn, 400), Replay: obj{"kind": "c01snip", "src": sn}})
+		return traceItem{}, 0
+	}
+	if !ok || perr != nil || pmsg != "" || len(frags) > maxFrags {
 		return traceItem{}, 0
 	}
 	c.Eval("snippet|"+sn, strings.Contains(sn, "//") || strings.Contains(sn, "/*"))
